@@ -1,16 +1,21 @@
 #!/bin/sh
 # tools/refactorings.sh   apply every stored behaviour-preserving refactoring (refactorings/*.diff, written by
 # independent sub-agents) to a scratch copy of /repo's tree and list what the checks report: should be nothing.
+# REFAC_JOBS (default 6) scratch copies are examined at a time.
 set -u
 HERE=$(cd "$(dirname "$0")/.." && pwd)
-n=0; bad=0
-for f in "$HERE"/refactorings/*.diff; do
+one() {
+  f=$1
   r=$("$HERE/tools/eval-refac.sh" "$f")
   case "$r" in
     "violations=0 "*) echo "QUIET  $(basename "$f" .diff)";;
     PATCH-FAILED*|BUILD-FAILED*) echo "SKIP   $(basename "$f" .diff) ($r)";;
-    *) echo "ALARM  $(basename "$f" .diff) $r" | cut -c1-300; bad=$((bad+1));;
+    *) echo "ALARM  $(basename "$f" .diff) $r" | cut -c1-300;;
   esac
-  n=$((n+1))
-done
+}
+if [ "${1:-}" = "--one" ]; then one "$2"; exit 0; fi
+T=$(mktemp /tmp/ucanrefacs.XXXXXX); trap 'rm -f "$T"' EXIT
+ls "$HERE"/refactorings/*.diff | xargs -P "${REFAC_JOBS:-6}" -n1 "$0" --one > "$T"
+sort -k2,2 "$T"
+n=$(grep -c . "$T"); bad=$(grep -c '^ALARM' "$T")
 echo "refactorings: $n applied, $bad raise an alarm"
